@@ -222,6 +222,8 @@ def concretise(cell, tid, rng):
         job["qcalc"] = qc
         if kind == "pinhole":
             job.update({"cls": "pinhole", "sigma": a})
+            # a caller-chosen cut-off of the Gaussian (scalar or (low, high)); None = the documented default
+            job["nsigma"] = rng.choice([None, None, 5.0, 4.0, [3.0, 6.0], 2.0])
         elif kind == "perfect":
             job.update({"cls": "perfect"})
         else:
